@@ -52,6 +52,7 @@ func childMain(args []string) {
 	case "mode":
 		modeProbe(r)
 	case "slow":
+		refusedThenForward(r)
 		identicalForwards(r)
 		slowForward(r)
 	case "faulty":
@@ -619,6 +620,76 @@ func faultyForward(r *rand.Rand, idx int) {
 		}
 	}
 	emit(map[string]interface{}{"kind": "faulty-ok", "threads": nth})
+}
+
+// refusedThenForward: a request the shim refuses without needing the underlying agent's answer (a hardware
+// "certificate" that is a plain key, a certificate over a key the agent does not hold), directly followed by a raw
+// request of the same or of another client: whatever the refused request started must be over before the next
+// operation talks to the underlying agent - the raw request gets the reply to itself.
+func refusedThenForward(r *rand.Rand) {
+	stop := watchdog("history of refused requests followed by raw requests", 40*time.Second)
+	defer stop()
+	for _, viaConn := range []bool{false, true} {
+		s, err := newSUT(viaConn, false, nil)
+		if err != nil {
+			emit(map[string]interface{}{"kind": "setup-error", "error": err.Error()})
+			return
+		}
+		m := newMaterial(r, 3)
+		const nth = 3
+		callers := make([]caller, nth)
+		for t := range callers {
+			if callers[t], err = s.caller(); err != nil {
+				emit(map[string]interface{}{"kind": "setup-error", "error": err.Error()})
+				s.close()
+				return
+			}
+		}
+		_ = callers[0].Add(m.addedKey(0))
+		orphan := m.newCert(r, 2, time.Now().Add(time.Hour), "verif-orphan") // over a key the agent does not hold
+		var mu sync.Mutex
+		var problems []string
+		var wg sync.WaitGroup
+		for t := range callers {
+			wg.Add(1)
+			go func(t int) {
+				defer wg.Done()
+				for k := 0; k < 25; k++ {
+					var rerr error
+					switch (t + k) % 3 {
+					case 0:
+						rerr = callers[t].AddHardCert(m.pubs[0], "not a certificate")
+					case 1:
+						rerr = callers[t].AddHardCert(orphan, "orphan")
+					default:
+						_, rerr = callers[t].Sign(m.pubs[1], []byte("no such key")) // a key nobody holds
+					}
+					if rerr == nil {
+						mu.Lock()
+						problems = append(problems, fmt.Sprintf("client %d: a request that must be refused succeeded", t))
+						mu.Unlock()
+					}
+					if ok, d := forwardTagged(callers[t], r); !ok {
+						mu.Lock()
+						problems = append(problems, fmt.Sprintf("client %d, raw request right after a refused request: %s", t, d))
+						mu.Unlock()
+					}
+				}
+				if _, err := callers[t].List(); err != nil {
+					mu.Lock()
+					problems = append(problems, fmt.Sprintf("client %d, List after the refused requests: %v", t, err))
+					mu.Unlock()
+				}
+			}(t)
+		}
+		wg.Wait()
+		s.close()
+		if len(problems) > 0 {
+			emit(map[string]interface{}{"kind": "slow-problem", "what": "refused requests followed by raw requests: " + problems[0], "count": len(problems), "via_connections": viaConn})
+		} else {
+			emit(map[string]interface{}{"kind": "slow-ok", "via_connections": viaConn})
+		}
+	}
 }
 
 // identicalForwards: several clients send the SAME raw request (byte for byte) at the same time, several times; the
